@@ -65,8 +65,12 @@ declare_class(
         "default_gap": TOpt(ROW),
         "assembly_stats": TRef("AssemblyStats"),
         "bp_per_texel": REAL,
+        "scaffold_namer": TRef("ScaffoldNamer"),
     },
 )
+# groups and names chromosomes across haplotypes: opaque here (its effect is limited to Scaffold.name, see the
+# TRUSTED contracts in specs/build_assembly.py)
+declare_class("ChrNamer", fields={"chr_prefix": STR})
 
 # --- FASTA side -----------------------------------------------------------------------------
 # Abstract bytes values are triples (kind, first, n):
